@@ -277,6 +277,10 @@ def stored_order_rules(r, lib):
             fs = mir.place_fields(pl)
             if fs and fs[-1] == ("element::Element", "attributes"):
                 writers.append((b, s))
+            from .common import element_update, PseudoSite
+            upd = element_update(b, s)
+            if upd and "attributes" in upd:
+                writers.append((b, PseudoSite(s, {"k": "assign", "place": s.node["place"], "rv": {"k": "use", "op": upd["attributes"]}, "span": s.node.get("span", {})})))
         for cs in b.calls():
             for x in cs.node["args"]:
                 if is_mut_ref(arg_ty(b, x)):
@@ -301,8 +305,12 @@ def position_rules(r, lib):
         for s in b.assigns():
             rv = s.node["rv"]
             if rv["k"] == "agg" and rv.get("adt") == "element::Element":
+                from .common import element_update
+                upd = element_update(b, s)
+                if upd is not None and "position" not in upd:
+                    continue    # struct update that keeps the position
                 t = strip(term_of(b, rv["ops"][rv["fields"].index("position")]))
-                ok = t[0] == "agg" and t[2] == "None"
+                ok = t[0] == "agg" and t[2] == "None" and upd is None
                 r.ob("R9.4.position-initially-none", b.name, ok, "a freshly constructed element has no position" if ok else
                      "constructor sets position to %s" % term_s(t), site=s, key="R9.4|init|%s" % b.name)
             pl = b.canon(s.node["place"])
@@ -319,7 +327,19 @@ def position_rules(r, lib):
          site=writes[0][1] if writes else None, key="R9.4|writers")
     for (b, s) in writes:
         if s.si is None:
-            r.ob("R9.4.position-write", b.name, False, "position handed out by unique reference to `%s`" % cname(s.node), site=s, key="R9.4|write|%s|call" % b.name)
+            # position.get_or_insert(children.len()) / get_or_insert_with(|| ..): writes only a position that is still None
+            okc = False
+            if cname(s.node) in ("std::option::Option::get_or_insert",) and len(s.node["args"]) == 2:
+                v = strip(term_of(b, s.node["args"][1]))
+                okc = v[0] == "call" and v[1] in ("std::vec::Vec::len", "core::slice::len") and _is_self_field(strip(v[2][0]), "children")
+                if okc:
+                    # the length is read before the insertion and the insertion follows
+                    okc = any(cs.bb in b.reach_from(s.bb) and cs.node["args"] and _is_self_field(strip(term_of(b, cs.node["args"][0])), "children") and
+                              is_mut_ref(arg_ty(b, cs.node["args"][0])) for cs in b.calls()) and \
+                        not any(cs.bb in b.reach_from(v[3].bb) and s.bb in b.reach_from(cs.bb) and cs.node["args"] and is_mut_ref(arg_ty(b, cs.node["args"][0])) and
+                                _is_self_field(strip(term_of(b, cs.node["args"][0])), "children") for cs in b.calls())
+            r.ob("R9.4.position-write", b.name, okc, "position.get_or_insert(self.children.len()): set only when still None, before the insertion into self.children" if okc else
+                 "position handed out by unique reference to `%s`" % cname(s.node), site=s, key="R9.4|write|%s|call" % b.name)
             continue
         t = strip(term_of(b, s.node["rv"]["op"])) if s.node["rv"]["k"] == "use" else ("?",)
         if s.node["rv"]["k"] == "agg":
